@@ -101,6 +101,18 @@ def check(tier, seed, replay=None):
             cs, m = lpcases.family(cfg, tier if sim is None else "quick", seed, n if tier == "quick" or sim else n * 20, sim)
             meta["lp:" + cfg[:-4]] = m
             lpcases_ += cs
+        # starts that need no two-phase method: every row has a singleton column, which for some rows is a model
+        # variable with a coefficient other than 1 and a non-zero cost (the direct construction has to scale the
+        # row before it reduces the cost row)
+        from .solve import B as B_
+        nn = lambda n: {"name": n, "kind": "nnreal", "lo": B_(0, 0), "hi": B_(1, 0)}
+        rw = lambda a, cmp, b: {"a": a, "cmp": cmp, "b": b, "name": ""}
+        lpcases_ += [
+            {"id": "h_direct_scaled_basic", "sense": "max", "obj": [3, 1], "off": 0, "den": 1, "vars": [nn("v0"), nn("v1")], "rows": [rw([2, 0], "le", 4), rw([0, 1], "le", 3)]},
+            {"id": "h_direct_scaled_basic_eq", "sense": "min", "obj": [2, -1, 1], "off": 1, "den": 1, "vars": [nn("v0"), nn("v1"), nn("v2")],
+             "rows": [rw([3, 0, 1], "eq", 6), rw([0, 2, 1], "eq", 4)]},
+            {"id": "h_direct_scaled_basic_half", "sense": "max", "obj": [1, 4], "off": 0, "den": 2, "vars": [nn("v0"), nn("v1")], "rows": [rw([1, 0], "le", 3), rw([0, 3], "le", 5)]},
+        ]
     core.write_ndjson(cpath, cases)
     events = core.rv(["simplex", "--cases", cpath]) if cases else []
     if lpcases_:
